@@ -4,6 +4,7 @@ from __future__ import annotations
 
 import importlib
 import json
+import os
 import signal
 import sys
 import time
@@ -117,7 +118,9 @@ def run_cell(mod_name: str, cell: dict) -> dict:
         'native_runs': 0, 'native_vacuous': 0, 'divergences': [], 'samples': [], 'outcomes': {},
         'decisions': 0, 'roundings': 0, 'unknown_feasibility': 0, 'max_gens': 0, 'harness_errors': [],
         'labels': {}, 'boundary_only': [],
+        'cross_check': {'queries': 0, 'cvc5': {}, 'z3-4.8': {}, 'disagreements': []},
     }
+    xc_budget = cell.get('cross_check', 0)
     stats = symx.Stats()
     seen_violation_keys = set()
 
@@ -209,6 +212,8 @@ def run_cell(mod_name: str, cell: dict) -> dict:
                         if r == z3.unsat:
                             out['discharged_solver'] += 1
                             lab[1] += 1
+                            if out['cross_check']['queries'] < xc_budget and ctx.lowering == 'cleared':
+                                _cross_check(ctx, z3.Not(form_z3(ctx, form)), out)
                             continue
                         if r == z3.sat:
                             verdict = 'sat'
@@ -331,6 +336,39 @@ def run_cell(mod_name: str, cell: dict) -> dict:
     out['functions_entered'] = sorted(_entered)
     out['wall_s'] = round(time.perf_counter() - t_start, 3)
     return out
+
+
+def _cross_check(ctx, negated, out):
+    """Re-decide one discharged query (path condition AND negated obligation, exported as SMT-LIB2 by z3) with two
+    independent solver builds: cvc5 1.0 and z3 4.8 binaries.  Expected answer: unsat."""
+    import subprocess
+    import tempfile
+    try:
+        ctx.solver.push()
+        ctx.solver.add(negated)
+        text = "(set-logic QF_NRA)\n" + ctx.solver.to_smt2()
+    finally:
+        ctx.solver.pop()
+    rec = out['cross_check']
+    with tempfile.TemporaryDirectory(prefix='verif_xc_') as d:
+        path = os.path.join(d, 'q.smt2')
+        with open(path, 'w') as f:
+            f.write(text)
+        for name, cmd in (('cvc5', ['cvc5', '--tlimit=15000', path]), ('z3-4.8', ['/usr/bin/z3', '-T:15', path])):
+            try:
+                p = subprocess.run(cmd, capture_output=True, text=True, timeout=40)
+                o = (p.stdout + p.stderr)
+                if '(error' in o:
+                    ans = 'error'
+                else:
+                    toks = [ln.strip() for ln in p.stdout.splitlines() if ln.strip() in ('sat', 'unsat', 'unknown')]
+                    ans = toks[0] if toks else 'unknown'
+            except (subprocess.TimeoutExpired, OSError):
+                ans = 'unknown'
+            rec[name][ans] = rec[name].get(ans, 0) + 1
+            if ans == 'sat':
+                rec['disagreements'].append({'solver': name, 'query': text[:1500]})
+    rec['queries'] += 1
 
 
 def _retry_unknown(ctx, form):
